@@ -34,9 +34,11 @@ LEVEL = ("Generated-input exploration: every enumerated public constructor / fit
          "repeated calls must agree. No absence claim: strength = the counted distinct executed (entry, layout, data) cases.")
 BUDGET = {"quick": 260, "thorough": 12000}
 WATCHDOG = {"quick": 60, "thorough": 120}
-RULE = ("Three generated case families: 'purity' = (entry point from the table of %d, data seed, one memory layout per array argument, "
+RULE = ("Four generated case families: 'purity' = (entry point from the table of %d, data seed, one memory layout per array argument, "
         "float64 / float32 / int dtype of the main matrix); 'refit' = (estimator from the table of %d, history of 2..3 fits on drawn data "
-        "sets of different sizes, with / without targets or weights where optional); 'repeat' = the same fitted call executed twice.  "
+        "sets of different sizes, with / without targets or weights where optional); 'repeat' = the same fitted call executed twice; 'reparam' = (estimator, one hyper-parameter and its new value from a table, set_params or "
+        "attribute assignment): fit, change the hyper-parameter, fit again, compared (fitted state the new configuration defines, and probe "
+        "outputs) with an estimator constructed with the new value and fitted once.  "
         "Non-trivial: the call executed without an argument-validation error (purity), respectively every fit of the history succeeded; "
         "distinct = SHA-1 of the canonical case.")
 ASSUMPTIONS = [
@@ -44,6 +46,7 @@ ASSUMPTIONS = [
     "fitted state = public attributes ending in '_' (arrays compared with tolerance 1e-9 x magnitude: ARPACK start vectors differ between fits); "
     "attributes holding foreign objects (scipy ConvexHull, interpolators) are compared by type only",
     "an exception mentioning 'read-only' on a read-only argument counts as a mutation only if the same call mutates a writable copy",
+    "after a hyper-parameter change, attributes that only the old configuration defines may linger (the property speaks of refits on other data)",
     "entry points present at the pinned commit are enumerated in this module; a new entry point is not covered until added to the table",
 ]
 
@@ -185,8 +188,12 @@ def compare_state(ctx, sub, a, b, path=""):
             ctx.fail(sub, "%s: type %s vs fresh %s" % (path, type(b).__name__, type(a).__name__))
 
 
-def compare_estimators(ctx, sub, fresh, est):
+def compare_estimators(ctx, sub, fresh, est, allow_leftovers=False):
     sa, sb = public_state(fresh), public_state(est)
+    if allow_leftovers:
+        # (after a hyper-parameter change an attribute that only the old configuration defines may linger: the property speaks
+        # of refits on other data, so only what the new configuration defines is compared)
+        sb = {k: v for k, v in sb.items() if k in sa}
     if set(sa) != set(sb):
         ctx.fail(sub + ":attributes", "fitted attributes differ from a fresh fit: extra %s, missing %s"
                  % (sorted(set(sb) - set(sa)), sorted(set(sa) - set(sb))))
@@ -549,7 +556,8 @@ for _mod, _mn in ((FS, "feature_selection"), (SS, "sample_selection")):
     for _cls in ("FPS", "CUR", "PCovFPS", "PCovCUR"):
         REFIT["%s.%s" % (_mn, _cls)] = _sel_refit(_mod, _cls)
 REFIT["sample_selection.VoronoiFPS"] = (lambda: SS.VoronoiFPS(n_to_select=3, full_fraction=0.5), lambda e, d, opt: e.fit(d["X"], d["y"] if opt else None))
-REFIT["sample_selection.DirectionalConvexHull"] = (lambda: SS.DirectionalConvexHull(low_dim_idx=[0]), lambda e, d, opt: e.fit(d["X"], d["y"]))
+REFIT["sample_selection.DirectionalConvexHull"] = (lambda: SS.DirectionalConvexHull(low_dim_idx=[0]), lambda e, d, opt: e.fit(d["X"], d["y"]),
+                                                   lambda e, d: {"score_samples": e.score_samples(d["X"], d["y"] + 0.5), "score_feature_matrix": np.nan_to_num(e.score_feature_matrix(d["X"]))})
 REFIT["decomposition.PCovR(feature)"] = (lambda: PCovR(n_components=2, space="feature"), lambda e, d, opt: e.fit(d["X"], d["Y"] if opt else d["y"]))
 REFIT["decomposition.PCovR(sample)"] = (lambda: PCovR(n_components=2, space="sample"), lambda e, d, opt: e.fit(d["X"], d["Y"] if opt else d["y"]))
 REFIT["decomposition.KernelPCovR"] = (lambda: KernelPCovR(n_components=2, kernel="rbf", gamma=0.2, center=True, fit_inverse_transform=True),
@@ -641,13 +649,61 @@ REFIT["neighbors.SparseKDE(fspread, weights)"] = (
     lambda e, d: {"score_samples": e.score_samples(_KDE_DESC[::7] + 0.05)})
 REFIT_NAMES = sorted(REFIT)
 
+# ----------------------------------------------------------------------------
+# hyper-parameters changed between two fits of one object: name -> (constructor taking overrides, fit, probe, [(parameter, new value)])
+# The object under test is built with the defaults below, fitted, gets ONE hyper-parameter changed (set_params or plain attribute
+# assignment) and is fitted again; the reference is built with the new value through the constructor and fitted once.
+# ----------------------------------------------------------------------------
+_CELL = np.array([3.0, 4.5])
+REPARAM = {
+    "preprocessing.KernelNormalizer": (lambda **kw: KN(**kw), "preprocessing.KernelNormalizer", [("with_center", False), ("with_trace", False)]),
+    "preprocessing.SparseKernelCenterer": (lambda **kw: SKC(**kw), "preprocessing.SparseKernelCenterer", [("with_center", False), ("with_trace", False)]),
+    "preprocessing.StandardFlexibleScaler": (lambda **kw: SFS(**dict(dict(column_wise=True), **kw)), "preprocessing.StandardFlexibleScaler",
+                                             [("with_mean", False), ("with_std", False), ("column_wise", False)]),
+    "linear_model.OrthogonalRegression(projector)": (lambda **kw: OrthogonalRegression(**kw), "linear_model.OrthogonalRegression(projector)",
+                                                     [("use_orthogonal_projector", False)]),
+    "linear_model.OrthogonalRegression(padded)": (lambda **kw: OrthogonalRegression(**dict(dict(use_orthogonal_projector=False), **kw)),
+                                                  "linear_model.OrthogonalRegression(padded)", [("use_orthogonal_projector", True)]),
+    "linear_model.Ridge2FoldCV": (lambda **kw: Ridge2FoldCV(**dict(dict(alphas=[1e-3, 1e-1], random_state=0), **kw)), "linear_model.Ridge2FoldCV",
+                                  [("alphas", [1e-2, 1.0, 10.0]), ("regularization_method", "cutoff"), ("alpha_type", "relative")]),
+    "decomposition.PCovR(feature)": (lambda **kw: PCovR(**dict(dict(n_components=2, space="feature"), **kw)), "decomposition.PCovR(feature)",
+                                     [("mixing", 0.9), ("n_components", 3), ("space", "sample"), ("svd_solver", "arpack")]),
+    "decomposition.PCovR(sample)": (lambda **kw: PCovR(**dict(dict(n_components=2, space="sample"), **kw)), "decomposition.PCovR(sample)",
+                                    [("mixing", 0.1), ("n_components", 1), ("space", "feature")]),
+    "decomposition.KernelPCovR": (lambda **kw: KernelPCovR(**dict(dict(n_components=2, kernel="rbf", gamma=0.2, center=True, fit_inverse_transform=True), **kw)),
+                                  "decomposition.KernelPCovR", [("mixing", 0.9), ("kernel", "linear"), ("gamma", 1.0), ("center", False), ("n_components", 3)]),
+    "clustering.QuickShift(gabriel)": (lambda **kw: QuickShift(**dict(dict(gabriel_shell=2), **kw)), "clustering.QuickShift(gabriel)",
+                                       [("gabriel_shell", 1), ("metric_params", {"cell_length": _CELL}), ("scale", 2.0)]),
+    "sample_selection.DirectionalConvexHull": (lambda **kw: SS.DirectionalConvexHull(**dict(dict(low_dim_idx=[0, 1]), **kw)),
+                                               "sample_selection.DirectionalConvexHull", [("low_dim_idx", [0]), ("low_dim_idx", [2, 0])]),
+    "neighbors.SparseKDE": (lambda **kw: SparseKDE(_KDE_DESC.copy(), None, **dict(dict(fpoints=0.4), **kw)), "neighbors.SparseKDE", [("fpoints", 0.25)]),
+}
+for _mod, _mn in ((FS, "feature_selection"), (SS, "sample_selection")):
+    for _cls in ("FPS", "CUR", "PCovFPS", "PCovCUR"):
+        _chg = [("n_to_select", 2), ("n_to_select", 0.75), ("score_threshold", 1e-9)]
+        if "FPS" in _cls:
+            _chg += [("initialize", 2)]
+        if "CUR" in _cls:
+            _chg += [("recompute_every", 0), ("k", 2)]
+        if _cls.startswith("PCov"):
+            _chg += [("mixing", 0.9)]
+        REPARAM["%s.%s" % (_mn, _cls)] = ((lambda C: (lambda **kw: C(**dict(dict(n_to_select=3), **kw))))(getattr(_mod, _cls)), "%s.%s" % (_mn, _cls), _chg)
+REPARAM["sample_selection.VoronoiFPS"] = (lambda **kw: SS.VoronoiFPS(**dict(dict(n_to_select=3, full_fraction=0.5), **kw)), "sample_selection.VoronoiFPS",
+                                          [("n_to_select", 5), ("full_fraction", 0.9), ("initialize", 3)])
+REPARAM_NAMES = sorted(REPARAM)
+
 
 # ----------------------------------------------------------------------------
 # strategy
 # ----------------------------------------------------------------------------
 @st.composite
 def strategy_(draw, tier):
-    family = draw(st.sampled_from(["purity", "purity", "purity", "refit", "repeat"]))
+    family = draw(st.sampled_from(["purity", "purity", "purity", "refit", "repeat", "reparam"]))
+    if family == "reparam":
+        name = draw(st.sampled_from(REPARAM_NAMES))
+        return {"family": family, "est": name, "change": draw(st.integers(0, len(REPARAM[name][2]) - 1)), "how": draw(st.sampled_from(["set_params", "setattr"])),
+                "seeds": [draw(st.integers(0, 10 ** 6)), draw(st.integers(0, 10 ** 6))], "size": draw(st.sampled_from(["small", "large"])),
+                "opt": draw(st.booleans()), "same_data": draw(st.booleans())}
     if family == "purity":
         name = draw(st.sampled_from(ENTRY_NAMES))
         seed = draw(st.integers(0, 10 ** 6))
@@ -684,11 +740,16 @@ def exhaustive(tier):
         for sa, sb, oa, ob in (("large", "small", True, True), ("small", "large", True, True), ("large", "small", True, False),
                                ("small", "large", False, True)):
             yield {"family": "refit", "est": name, "steps": [[11, sa, oa], [12, sb, ob]]}
+    for name in REPARAM_NAMES:
+        for ci in range(len(REPARAM[name][2])):
+            for how in ("set_params", "setattr"):
+                yield {"family": "reparam", "est": name, "change": ci, "how": how, "seeds": [11, 12], "size": "large", "opt": True, "same_data": False}
 
 
 EXHAUSTIVE_PARTS = {
     "quick": ["every entry point of the purity table x each of the 4 layouts applied to all array arguments; every estimator of the refit "
-              "table x 4 canonical two-step histories (large->small, small->large, with->without optional targets/weights and back)"],
+              "table x 4 canonical two-step histories (large->small, small->large, with->without optional targets/weights and back); every "
+              "(estimator, hyper-parameter change) of the reparam table by set_params and by attribute assignment"],
     "thorough": ["same enumeration as quick"],
 }
 
@@ -809,9 +870,55 @@ def exec_repeat(case, ctx):
     ctx.nontrivial = True
 
 
+def exec_reparam(case, ctx):
+    name = case["est"]
+    ctor, refit_name, changes = REPARAM[name]
+    fit = REFIT[refit_name][1]
+    probe = REFIT[refit_name][2] if len(REFIT[refit_name]) > 2 else None
+    param, value = changes[case["change"]]
+    n, m = SIZES[case["size"]]
+    if param == "k":
+        n, m = SIZES["large"]          # (k = 2 needs a residual of rank >= 2 after the last selection, or the final scores are arbitrary)
+    ctx.cls("reparam=%s:%s" % (name, param), "how=" + case["how"])
+    d1 = data(case["seeds"][0], n, m)
+    d2 = d1 if case["same_data"] else data(case["seeds"][1], n, m)
+    import copy
+    try:
+        est = ctor()
+        fit(est, d1, case["opt"])
+        done = False
+        if case["how"] == "set_params" and hasattr(est, "set_params"):
+            try:
+                est.set_params(**{param: copy.deepcopy(value)})
+                done = True
+            except ValueError as e:
+                if "Invalid parameter" not in str(e):     # (constructor arguments that get_params does not list: plain assignment instead)
+                    raise
+                ctx.cls("set_params-unavailable")
+        if not done:
+            setattr(est, param, copy.deepcopy(value))
+        fit(est, d2, case["opt"])
+        out = probe(est, d2) if probe else None
+    except Exception as e:  # noqa: BLE001
+        from vf.core import innermost_frame
+        ctx.fail("exception:reparam", "%s: fit, %s=%r by %s, fit raised %s: %s @ %s" % (name, param, value, case["how"], type(e).__name__, str(e)[:120], innermost_frame(e)))
+        return
+    with ctx.lib("reference fit"):
+        fresh = ctor(**{param: copy.deepcopy(value)})
+        fit(fresh, data(case["seeds"][0] if case["same_data"] else case["seeds"][1], n, m), case["opt"])
+        ref = probe(fresh, d2) if probe else None
+    compare_estimators(ctx, "reparam-state", fresh, est, allow_leftovers=True)
+    if probe and not ctx.problems:
+        for k in ref:
+            compare_state(ctx, "reparam-behaviour:" + k, ref[k], out[k], "%s after %s=%r (%s) and a second fit" % (k, param, value, case["how"]))
+    ctx.nontrivial = True
+
+
 def check(case, ctx):
     ctx.cls("family=" + case["family"])
-    if case["family"] == "purity":
+    if case["family"] == "reparam":
+        exec_reparam(case, ctx)
+    elif case["family"] == "purity":
         exec_purity(case, ctx)
     elif case["family"] == "refit":
         exec_refit(case, ctx)
